@@ -21,12 +21,12 @@ TOLERANCES = {"law_rel": 1e-10, "path_rel": 1e-10, "readback_rel": 1e-12}
 EXHAUSTIVE = {"quick": False, "thorough": True}
 EXHAUSTIVE_PART = "thorough: every (2-D shape class x material class) pair at least 3 paths; quick: every pair once"
 FLOORS = {"quick": {"law.area": 400, "law.ndens": 400, "law.dims": 400, "law.path": 400, "law.link": 100, "law.hotset": 200, "law.fluid": 20, "hook:Component.setTemperature": 1000},
-          "thorough": {"law.area": 4000, "law.ndens": 4000, "law.dims": 4000, "law.path": 3000, "law.link": 1000, "law.hotset": 2000, "law.fluid": 200, "hook:Component.setTemperature": 10000}}
+          "thorough": {"law.area": 4000, "law.ndens": 4000, "law.dims": 4000, "law.path": 4000, "law.link": 1000, "law.hotset": 2000, "law.fluid": 200, "hook:Component.setTemperature": 10000}}
 NSHARDS = 12
 
 
 def plan(tier, seed):
-    return [{"name": "x%d" % i, "shard": i, "reps": 2 if tier == "quick" else 8, "links": 40 if tier == "quick" else 400} for i in range(NSHARDS)]
+    return [{"name": "x%d" % i, "shard": i, "reps": 2 if tier == "quick" else 20, "links": 40 if tier == "quick" else 400} for i in range(NSHARDS)]
 
 
 def shapes():
